@@ -84,7 +84,10 @@ def gen_case(rng):
                     ev.append(("vrfdel", v, pf))
                     orig[v].discard(pf)
                 else:
-                    ev.append(("vrfadd", v, pf))
+                    # sometimes the route carries a Site-of-Origin community with the VALUE of one of the VRF's export
+                    # targets (another sub-type: it is not a route target and takes no part in the export)
+                    soo = rng.choice(sorted(vrfs[v][1])) if vrfs[v][1] and rng.random() < 0.3 else None
+                    ev.append(("vrfadd", v, pf, soo))
                     orig[v].add(pf)
         else:
             ev.append(("obs",))
@@ -110,7 +113,7 @@ def sim_line(c):
             steps.append("(addpeer (e 10.0.0.5 65005 vrf=v1))")
             steps.append("(up e)")
         elif k in ("vrfadd", "vrfdel"):
-            steps.append("(%s %s %s)" % (k, e[1], e[2]))
+            steps.append("(%s %s %s%s)" % (k, e[1], e[2], (" soo=" + e[3]) if len(e) > 3 and e[3] else ""))
         elif k == "obs":
             steps.append("(obs)")
     peers_sx = " ".join("(%s %s %d %s)" % p for p in PEERS)
